@@ -68,7 +68,27 @@ def intBitsGo (v : Int) (n : Nat) : List Bool :=
   if n = 1 then (if v = -1 then [true] else if v = 0 then [false] else [])
   else decide (v < 0) :: natToBits (n - 1) (v % (2 ^ 64 : Int)).toNat
 
-def writeInt (b : Builder) (v : Int) (n : Nat) : Outcome Builder := b.writeBits (intBitsGo v n)
+/-- BitString.WriteInt(val int64, bitLen) (after the repair, boc/bitString.go): width 0 is an error, width 1 holds
+-1 and 0 only; wider fields write the sign bit and the low bits of the value -/
+def writeInt (b : Builder) (v : Int) (n : Nat) : Outcome Builder :=
+  if n = 0 then .err "integer can't be zero size"
+  else if n = 1 ∧ v ≠ -1 ∧ v ≠ 0 then .err "bit length is too small"
+  else b.writeBits (intBitsGo v n)
+
+theorem writeInt_wide (b : Builder) (v : Int) (n : Nat) (h : 2 ≤ n) : b.writeInt v n = b.writeBits (intBitsGo v n) := by
+  unfold writeInt
+  rw [if_neg (by omega), if_neg (by omega)]
+
+/-- within the representable range (any width ≥ 1) WriteInt is the plain write of `intBitsGo` -/
+theorem writeInt_repr (b : Builder) (v : Int) (n : Nat) (h1 : 1 ≤ n) (lo : -(2 ^ (n - 1) : Int) ≤ v)
+    (hi : v < (2 ^ (n - 1) : Int)) : b.writeInt v n = b.writeBits (intBitsGo v n) := by
+  unfold writeInt
+  rw [if_neg (by omega)]
+  by_cases hn : n = 1
+  · subst hn
+    simp only [Nat.sub_self, Int.pow_zero] at lo hi
+    rw [if_neg (by omega)]
+  · rw [if_neg (by omega)]
 
 def writeBytes (b : Builder) (bs : List UInt8) : Outcome Builder := b.writeBits (bytesToBits bs)
 
